@@ -120,6 +120,7 @@ type Peer struct {
 	DataRecv  atomic.Int64 // complete data frames read from the connection under test
 	DataSent  atomic.Int64 // complete data frames written to it (write returned nil)
 	Selected  atomic.Bool  // Select.rsp(0) was written
+	CtrlSeen  [10]atomic.Int64 // control frames read, by SType
 	EOF       chan struct{}
 	closed    chan struct{}
 	closeOnce sync.Once
@@ -153,8 +154,14 @@ type Env struct {
 	OnGen func(p *Peer)
 	// DialErr, if it returns non-nil for attempt n, makes that dial fail.
 	DialErr func(n int) error
+	// DialGate, if set, is called at the start of every dial attempt (it may block: the reconnect
+	// loop is then provably running). Attempts counts every dial attempt.
+	DialGate func(gen int)
+	Attempts atomic.Int64
 	// handler events
 	HandlerCalls atomic.Int64
+	AsyncErrs    atomic.Int64 // async error-handler callbacks (data and control)
+	AsyncNotSel  atomic.Int64 // ... of which ErrNotSelectedState (B2 on the sender goroutine)
 
 	CloseTimeout time.Duration
 	T3           time.Duration
@@ -195,6 +202,10 @@ func NewEnv(o Options) (*Env, error) {
 		CloseTimeout: o.CloseTimeout, T3: o.T3, SessionID: 7}
 	dial := func(ctx context.Context, network, address string) (net.Conn, error) {
 		n := int(e.dials.Load())
+		e.Attempts.Add(1)
+		if e.DialGate != nil {
+			e.DialGate(n)
+		}
 		if e.DialErr != nil {
 			if err := e.DialErr(n); err != nil {
 				return nil, err
@@ -335,6 +346,10 @@ func (e *Env) WaitParked(d time.Duration) (int, bool) {
 }
 
 func (e *Env) asyncErr(msg hsms.Message, err error) {
+	e.AsyncErrs.Add(1)
+	if classify(err) == RNotSel {
+		e.AsyncNotSel.Add(1)
+	}
 	dm, ok := msg.(*hsms.DataMessage)
 	if !ok {
 		e.record(Event{Typ: 'E', C: -1, K: 4, R: classify(err)})
@@ -511,6 +526,11 @@ func (p *Peer) RejectF(f []byte) error {
 	return p.write(frame(binary.BigEndian.Uint16(f[4:6]), 0, byte(10+p.Gen%200), 0, 7, sys, nil))
 }
 
+// Deselect sends Deselect.req (the connection under test answers and leaves Selected).
+func (p *Peer) Deselect() error {
+	return p.write(frame(p.env.SessionID, 0, 0, 0, 3, [4]byte{0x7f, 0, 0, 1}, nil))
+}
+
 // TakeHeld returns and clears the unanswered W-bit primaries.
 func (p *Peer) TakeHeld() [][]byte {
 	p.hmu.Lock()
@@ -560,6 +580,9 @@ func (p *Peer) readLoop() {
 		copy(f, lb[:])
 		if _, err := io.ReadFull(p.Conn, f[4:]); err != nil {
 			return
+		}
+		if f[9] < 10 {
+			p.CtrlSeen[f[9]].Add(1)
 		}
 		switch f[9] {
 		case 1: // Select.req
